@@ -288,3 +288,10 @@ def forall_key(eng, f):
 def isnumber(eng, x):
     from .values import is_num
     return is_num(x) or isinstance(x, bool) or (isinstance(x, SV) and x.t in ("real", "int"))
+
+
+@spec
+def matvalid(eng, k):
+    e = eng.as_key(k)
+    eng.facts.key(e)
+    return SV(T.matvalid(e), "bool")
